@@ -697,7 +697,11 @@ impl<'a> Parser<'a> {
                 Ok(GraphPattern::SubSelect(Box::new(subquery)))
             }
             _ => {
-                // Triple patterns
+                // Triple patterns. A token that starts nothing must be an error here: an empty
+                // block consumes no input and the enclosing loop would never terminate.
+                if !self.is_triple_start() {
+                    return Err(self.error("unexpected token in graph pattern"));
+                }
                 let triples = self.parse_triples_block()?;
                 Ok(GraphPattern::Basic(triples))
             }
